@@ -97,3 +97,37 @@ def has_node(v, pred):
 
 def path_matches(path, *regexes):
     return any(re.search(r, path) for r in regexes)
+
+
+def as_param_path(v, through_calls=True):
+    """(param index, (field, ...)) if v is a (possibly cloned / mutably borrowed) projection of a parameter"""
+    path = []
+    while True:
+        k = v[0]
+        if k == 'param':
+            return v[1], tuple(reversed(path))
+        if k == 'field':
+            path.append(v[2])
+            v = v[1]
+        elif k == 'variant':
+            path.append('as ' + v[2])
+            v = v[1]
+        elif k == 'mut':
+            v = v[1]
+        elif k == 'update':
+            # an update that does not touch the projected path is transparent; callers project first
+            v = v[1]
+        elif k == 'call' and through_calls and v[1].get('name') in prov.TRANSPARENT_NAMES and v[2]:
+            v = v[2][0]
+        else:
+            return None
+
+
+def mode_mentions(text):
+    """modes named by a path / type string"""
+    out = set()
+    for m in re.finditer(r'(?<![A-Za-z0-9_])(osu|taiko|catch|mania)::', text):
+        out.add(m.group(1))
+    for m in re.finditer(r'(?<![A-Za-z0-9_])(Osu|Taiko|Catch|Mania)(?=[A-Z]\w*|\b)', text):
+        out.add(m.group(1).lower())
+    return out
